@@ -71,6 +71,16 @@ func (g *qGen) genSelectJoin(w *qWorld, depth int) qQuery {
 	}
 	defer func() { w.ctes = nil }()
 	src := g.source(w, depth)
+	for try := 0; src.card > 6000 && try < 6; try++ {
+		// the model joins by nested loops inside Coq: keep the number of row pairs it has to look at bounded
+		if depth > 1 {
+			depth--
+		}
+		src = g.source(w, depth)
+	}
+	if src.card > 6000 {
+		src = g.tableSrc(w)
+	}
 	usingShape := ""
 	if g.r.Intn(6) == 0 {
 		if u, ok := g.usingSrc(w); ok {
